@@ -254,13 +254,19 @@ impl LocalFunction {
             }
         }
 
+        // Every argument occupies a slot in the emitted function even when it
+        // is never referenced, so it belongs to the set of emitted locals (which
+        // is what the name section is generated from).
+        let mut emitted_set = used_set;
+        emitted_set.extend(self.args.iter().cloned());
+
         // Use our type map to emit a compact representation of all locals now
         (
             ty_to_locals
                 .iter()
                 .map(|(ty, locals)| (locals.len() as u32, ty.to_wasmencoder_type()))
                 .collect(),
-            used_set,
+            emitted_set,
             local_map,
         )
     }
